@@ -50,6 +50,9 @@ func mutationsFor(s *Site) []Mutation {
 			// the field is renamed consistently (declaration and every reference) to a name that cannot be part of a
 			// Prometheus label name; key and metric-key fields become labels "key_<name>"
 			ms = append(ms, Mutation{Name: "non-label-name", Op: "renameall", Frag: orig + "-x"})
+			// letters and digits outside ASCII are letters and digits to package unicode, not to Prometheus label names
+			ms = append(ms, Mutation{Name: "non-label-name-nonascii-letter", Op: "renameall", Frag: orig + "ö"})
+			ms = append(ms, Mutation{Name: "non-label-name-nonascii-digit", Op: "renameall", Frag: orig + "٣"})
 		}
 		if s.Kind == "root.metricKeys[]" {
 			// a metric key that is also the k-th orchestration key: both become labels "key_<name>" (a no-op variant if the
